@@ -57,6 +57,7 @@ package modproof
 //@   props C06 C10
 //@   ensures result1 != nil ==> result0 == nil
 //@   ensures [C10.arity] result1 == nil ==> (len(bzs) == 163 && result0 != nil && fresh(result0) && result0.W != nil && result0.A != nil && result0.B != nil)
+//@   assume-ensures [A-modproof-decode] result1 == nil ==> (forall k in 0..80 :: (result0.X[k] != nil && result0.Z[k] != nil && val(result0.X[k]) >= 0 && val(result0.Z[k]) >= 0))
 //@   loop 0 invariant len(bis) == len(bzs) && fresh(bis)
 //@   loop 0 invariant forall k in 0..$iter :: (bis[k] != nil && fresh(bis[k]) && allocated(bis[k]) && val(bis[k]) >= 0)
 
